@@ -43,8 +43,10 @@ class RefEncoder:
         self.last_pid = 0
         self.last_nid = 0
         self.prev: dict[str, object] = {}
-        self.rows: list = []  # (row message, kind) in order
+        self.rows: list = []  # row messages in order
+        self.row_events: list[int] = []  # events each row denotes (parallel to rows, filled by frames())
         self.events: list[str] = []
+        self.event_rows: list[int] = []  # index of the row that carries each event
         self.pinned: dict[int, set[int]] = {}
         self.open_graph = None
         self.cur_rows: list = []
@@ -194,6 +196,7 @@ class RefEncoder:
         m.value.SetInParent()
         self.commit(jelly.RdfStreamRow(namespace=m))
         self.events.append(f"EP {hx(name)} {hx(iri)}")
+        self.event_rows.append(len(self.rows) - 1)
 
     # ---- whole streams
     def encode(self, stmts: list, ns: list[tuple[str, str]]) -> None:
@@ -208,9 +211,11 @@ class RefEncoder:
             if self.phys == 1:
                 self.triple(*st[:3])
                 self.events.append(event_tok(gs.Triple(*st[:3])))
+                self.event_rows.append(len(self.rows) - 1)
             elif self.phys == 2:
                 self.quad(*st[:4])
                 self.events.append(event_tok(gs.Quad(*st[:4])))
+                self.event_rows.append(len(self.rows) - 1)
             else:
                 g = st[3]
                 if self.open_graph is None or self.open_graph != g or r.random() < 0.15:
@@ -219,6 +224,7 @@ class RefEncoder:
                     self.graph_start(g)
                 self.triple(*st[:3])
                 self.events.append(event_tok(gs.Quad(*st[:3], g)))
+                self.event_rows.append(len(self.rows) - 1)
         while pending_ns:
             self.namespace(*pending_ns.pop(0))
         if self.phys == 3 and self.open_graph is not None and r.random() < 0.8:
@@ -229,6 +235,7 @@ class RefEncoder:
         r = self.r
         out = []
         cur = jelly.RdfStreamFrame()
+        self.frame_rows: list[int] = []  # number of rows in each frame produced
 
         def flush():
             nonlocal cur
@@ -237,6 +244,7 @@ class RefEncoder:
             if metadata and r.random() < 0.2 and (out or len(cur.rows)):
                 cur.metadata["k" + str(r.randint(0, 2))] = bytes([r.randint(0, 255) for _ in range(r.randint(0, 3))])
             out.append(cur)
+            self.frame_rows.append(len(cur.rows))
             cur = jelly.RdfStreamFrame()
 
         if empties and r.random() < 0.2:
@@ -261,3 +269,28 @@ def frames_bytes(frames: list, delimited: bool = True) -> bytes:
     for f in frames:
         merged.rows.extend(f.rows)
     return merged.SerializeToString(deterministic=True)
+
+
+def frame_events(events: list[str], event_rows: list[int], frame_rows: list[int]) -> list[list[str]]:
+    """Split the events of a stream by the frame that carries their row."""
+    out, start = [], 0
+    for n in frame_rows:
+        out.append([e for e, ri in zip(events, event_rows) if start <= ri < start + n])
+        start += n
+    return out
+
+
+def cut_frames(rows: list, cuts: list[int], metadata=None) -> list:
+    """Frames from an explicit partition: cuts = row counts per frame (zeros = empty frames)."""
+    out, i = [], 0
+    for k, n in enumerate(cuts):
+        f = jelly.RdfStreamFrame()
+        for row in rows[i : i + n]:
+            f.rows.append(row)
+        i += n
+        if metadata and metadata.get(k):
+            for a, b in metadata[k]:
+                f.metadata[a] = b
+        out.append(f)
+    assert i == len(rows)
+    return out
